@@ -281,8 +281,30 @@ def fam_partitioning_index(ctx):
     return f
 
 
+def fam_key_column_order(ctx):
+    """T4: the frame that is hashed holds the key columns in the order of the KEY LIST (the hash of a row
+    depends on column order), whatever the physical column order of the frame."""
+    from dask_expr._shuffle import _select_columns_or_index
+
+    f = Family("key_columns_in_key_order[_select_columns_or_index]")
+    cols = ["a", "b", "c", "d"]
+    inputs, code, model = [], [], []
+    for phys in itertools.permutations(cols, 4 if not ctx.quick else 3):
+        phys = list(phys) + [c for c in cols if c not in phys]
+        df = pd.DataFrame({c: [1, 2] for c in phys})
+        for r in (1, 2, 3):
+            for keys in itertools.permutations(cols[:3], r):
+                got = _select_columns_or_index(df, list(keys))
+                code.append(",".join(map(str, got.columns)))
+                model.append(",".join(keys))
+                inputs.append({"physical": phys, "keys": list(keys)})
+    f.compare(inputs, code, model, [len(i["keys"]) > 1 for i in inputs])
+    f.note = "model side = the key list itself: C12_cross_frame needs the partition number to be one function of the key TUPLE in key order"
+    return f
+
+
 def families(ctx):
-    return [fam_graphs, fam_stage_arith, fam_helpers, fam_partitioning_index]
+    return [fam_graphs, fam_stage_arith, fam_helpers, fam_partitioning_index, fam_key_column_order]
 
 
 # --------------------------------------------------------------------------- end-to-end support / search
@@ -375,9 +397,39 @@ def _cross_frame_case(case):
     return None
 
 
+def _cross_multi_case(case):
+    """Composite keys given positionally (left_on=[a,b], right_on=[y,x]) land in equal partition numbers
+    even when the right frame stores its key columns in the other physical order."""
+    import dask_expr as dx
+
+    n = 36
+    L = pd.DataFrame({"a": np.arange(n) % 5, "b": (np.arange(n) * 7) % 4, "pay": np.arange(n)})
+    R = pd.DataFrame({"x": (np.arange(n) * 7) % 4, "y": np.arange(n) % 5, "pay": np.arange(n)})  # physical order x, y
+    kw = {"max_branch": case["max_branch"]} if case["max_branch"] else {}
+    sl = dx.from_pandas(L, npartitions=case["nin"], sort=False).shuffle(["a", "b"], npartitions=case["nout"], shuffle_method=case["method"], **kw)
+    sr = dx.from_pandas(R, npartitions=case["nin"], sort=False).shuffle(["y", "x"], npartitions=case["nout"], shuffle_method=case["method"], **kw)
+    where = {}
+    for pi, part in enumerate(e2e.compute_partitions(sl)):
+        for a, b in zip(part.a, part.b):
+            where[(int(a), int(b))] = pi
+    for pi, part in enumerate(e2e.compute_partitions(sr)):
+        for y, x in zip(part.y, part.x):
+            if where.get((int(y), int(x)), pi) != pi:
+                return f"key {(int(y), int(x))} is in partition {where[(int(y), int(x))]} of the left frame but in partition {pi} of the right frame"
+    m = dx.from_pandas(L, npartitions=case["nin"], sort=False).merge(
+        dx.from_pandas(R, npartitions=case["nin"], sort=False), left_on=["a", "b"], right_on=["y", "x"], how="inner",
+        shuffle_method=case["method"], broadcast=False).compute()
+    want = L.merge(R, left_on=["a", "b"], right_on=["y", "x"], how="inner")
+    if len(m) != len(want):
+        return f"hash join on composite keys returned {len(m)} rows, pandas {len(want)}"
+    return None
+
+
 def _cases(ctx, broken):
     rng = ctx.rng
-    cases = []
+    cases = [{"kind": "cross_multi", "nin": 4, "nout": 5, "method": "tasks", "max_branch": None},
+             {"kind": "cross_multi", "nin": 6, "nout": 6, "method": "tasks", "max_branch": 2},
+             {"kind": "cross_multi", "nin": 3, "nout": 4, "method": "disk", "max_branch": None}]
     grid_n = [1, 2, 3, 5, 6] if ctx.quick else [1, 2, 3, 4, 5, 6, 7, 9]
     for nin in grid_n:
         for nout in grid_n:
@@ -408,13 +460,16 @@ def _cases(ctx, broken):
                 steered.append({"kind": "shuffle", "nin": inp["nin"], "nout": inp["nout"], "on": on,
                                 "method": "disk" if inp.get("kind") == "diskshuffle" else "tasks",
                                 "max_branch": inp.get("max_branch"), "ii": bool(inp.get("ii")), "parts": inp.get("parts")})
+    head, cases = cases[:3], cases[3:]
     rng.shuffle(cases)
     if ctx.quick and not broken:
         cases = cases[:140]
-    return steered + cases
+    return steered + head + cases
 
 
 def run_case(case):
+    if case["kind"] == "cross_multi":
+        return _cross_multi_case(case)
     if case["kind"] == "cross":
         return _cross_frame_case(case)
     return _shuffle_case(case)
